@@ -272,6 +272,9 @@ class MarginalRateTaxScale(RateTaxScaleLike):
             previous_threshold = self.thresholds[0]
             previous_rate = self.rates[0]
 
+            if previous_threshold != 0:
+                average_tax_scale.add_bracket(previous_threshold, 0)
+
             for threshold, rate in itertools.islice(
                 zip(self.thresholds, self.rates),
                 1,
@@ -282,6 +285,6 @@ class MarginalRateTaxScale(RateTaxScaleLike):
                 previous_threshold = threshold
                 previous_rate = rate
 
-            average_tax_scale.add_bracket(float("Inf"), rate)
+            average_tax_scale.add_bracket(float("Inf"), self.rates[-1])
 
         return average_tax_scale
